@@ -38,7 +38,11 @@ func (p *c07) Rule() string {
 		"in definition order, first truthy non-error result wins, else default, else no category => the run must fail with 'failed to pick a category'. Timeout resume => the wait's timeout category; random => " +
 		"floor(r*n) in exact decimal arithmetic on the recorded draw; no router => first exit. With a result name the stored result (and the run_result_changed event when present) must carry category name, value " +
 		"(match text / operand text) and input (operand text), modulo truncation to MaxResultChars. " +
-		"TRUSTED BASE: the Excellent evaluator and the test functions themselves (only the selection logic, result bookkeeping and exit mapping are under test). " +
+		"Overlay (own random stream, c07_aug.go): has_pattern patterns that differ only in letter case and mean something else (\\d/\\D, \\w/\\W, \\s/\\S, \\b/\\B, \\pL/\\PL, (?-i) literals) as single patterns, as neighbouring cases of one router and " +
+		"as translations of one another; in 35% of the cases one or more resumes bring an environment of their own (date format, number format, timezone, default country, allowed languages changed, put back, or repeated) and often a text whose reading depends on it. " +
+		"The environment of the reference is built from our own record of the history (the trigger's environment JSON, replaced by that of every accepted resume that carried one) with the contact's timezone/language/country merged in by our own code; " +
+		"session.MergedEnvironment() is never asked. has_pattern is judged by our own use of package regexp (compiled anew every time), not by the registered test. " +
+		"TRUSTED BASE: the Excellent evaluator and the test functions other than has_pattern (only the selection logic, result bookkeeping and exit mapping are under test), envs.ReadEnvironment, flows.NewAssetsEnvironment, package regexp. " +
 		"Non-trivial = a checked router decision with >= 2 cases, or an erroring case, or a default / timeout / random / no-category decision; distinct = SHA of (assets, trigger, resumes, options)."
 }
 
@@ -46,6 +50,7 @@ var c07Directed = []string{
 	"every-test-first-of-three", "every-test-middle-of-three", "every-test-last-of-three",
 	"erroring-first-case", "no-default-no-match", "duplicate-categories", "timeout-vs-default",
 	"random-1", "random-2", "random-7", "localized-arguments", "no-router-first-exit", "result-truncation", "expiration", "subflow-split",
+	"pattern-case-twins", "environment-from-resume",
 }
 
 func (p *c07) Directed() []string { return c07Directed }
@@ -72,6 +77,8 @@ func (p *c07) Floors(tier string) []string {
 		"seen.result_unchanged_no_event", "seen.truncated_value", "winner.first", "winner.middle", "winner.last",
 		"call.resume.msg", "call.resume.wait_timeout", "call.resume.run_expiration", "call.start",
 		"directed.position_as_intended", "random.redraw_agrees", "random.exact_boundary_draw", "seen.router_after_child_returned", "seen.router_in_child_run",
+		"pattern.judged_by_own_regexp", "seen.pattern_case_twin", "seen.pattern_twin_distinguishes",
+		"call.resume.with_environment", "seen.env_changed_by_resume", "seen.router_after_env_change", "seen.decision_depends_on_env_change", "env.reference_from_own_record",
 	}
 }
 
@@ -91,6 +98,7 @@ func (p *c07) Run(c fw.Case) fw.Result {
 	}
 	r := fw.NewRand(c.Seed, "C07", c.Index)
 	scen, meta := genC07(r)
+	augmentC07(fw.NewRand(c.Seed, "C07/overlay", c.Index), scen, meta)
 	res.Fingerprint = scen.Fingerprint()
 	shape := meta.Shape + "/" + meta.Kind
 	if meta.Parent {
@@ -147,12 +155,30 @@ func (p *c07) runScenario(res *fw.Result, scen *gen.Scenario, plants []int64, c 
 		res.Discarded = "unloadable: " + errClass(err.Error())
 		return false
 	}
+	// our own record of the environment in force: the trigger's, replaced by that of every accepted resume carrying one
+	track := &envTrack{cur: rawEnvOf(scen.Trigger)}
+	plog := &patternLog{}
 	h.run(func(rec *drive.CallRecord, pre plantState) {
 		if rec.Kind == "unreadable" {
 			res.Count("call.unreadable", 1)
 			return
 		}
-		if p.checkSprint(res, h, rec, pre, intent) {
+		track.changed = false
+		if rec.Kind == "resume" {
+			var sent map[string]any
+			json.Unmarshal(rec.ResumeJSON, &sent) // the resume as it was handed to the reader
+			if raw := rawEnvOf(sent); raw != nil {
+				res.Count("call.resume.with_environment", 1)
+				// a resume the wait rejects (or that hits a session which cannot be resumed) changes nothing
+				applied := rec.Panic == nil && !rec.Budget && (rec.Err == nil || strings.Contains(rec.Err.Error(), "error routing from node"))
+				if applied && string(raw) != string(track.cur) {
+					track.prev, track.cur, track.changed = track.cur, raw, true
+					track.changes++
+					res.Count("seen.env_changed_by_resume", 1)
+				}
+			}
+		}
+		if p.checkSprint(res, h, rec, pre, intent, track, plog) {
 			nonTrivial = true
 		}
 	})
@@ -167,7 +193,7 @@ func (p *c07) runScenario(res *fw.Result, scen *gen.Scenario, plants []int64, c 
 }
 
 // checkSprint compares every step that left a node during this engine call with the reference.
-func (p *c07) checkSprint(res *fw.Result, h *harness, rec *drive.CallRecord, pre plantState, intent *c07Intent) (nonTrivial bool) {
+func (p *c07) checkSprint(res *fw.Result, h *harness, rec *drive.CallRecord, pre plantState, intent *c07Intent, track *envTrack, plog *patternLog) (nonTrivial bool) {
 	scen := h.scen
 	entry := rec.Kind
 	if rec.Kind == "resume" {
@@ -195,8 +221,28 @@ func (p *c07) checkSprint(res *fw.Result, h *harness, rec *drive.CallRecord, pre
 			return // e.g. a resume the wait rejects: nothing was routed
 		}
 	}
-	sc := &sprintCheck{p: p, res: res, h: h, rec: rec, entry: entry, intent: intent}
-	sc.env = s.MergedEnvironment()
+	sc := &sprintCheck{p: p, res: res, h: h, rec: rec, entry: entry, intent: intent, track: track, plog: plog}
+	// the environment the routers of this sprint must have used: built from our own record of the history, never from
+	// session.MergedEnvironment() (see c07_ref.go)
+	sc.allowed = allowedOf(track.cur, h.trigger.Environment.AllowedLanguages)
+	if env, base, ok := buildRefEnv(s, track.cur); ok && base.Equal(s.Environment()) {
+		sc.env = env
+		res.Count("env.reference_from_own_record", 1)
+	} else {
+		// no environment JSON of ours to go by (or the session's base environment is not the one we recorded, which is
+		// not this property's business): merge over the session's plain base environment
+		sc.env = mergedOver(s, s.Environment())
+		sc.allowed = nil
+		for _, l := range s.Environment().AllowedLanguages() {
+			sc.allowed = append(sc.allowed, string(l))
+		}
+		res.Count("env.reference_from_session_base", 1)
+	}
+	if track.changed {
+		if env, _, ok := buildRefEnv(s, track.prev); ok {
+			sc.prevEnv, sc.prevAllowed = env, allowedOf(track.prev, nil)
+		}
+	}
 	sc.maxResult = h.rn.Eng.Options().MaxResultChars
 	sc.events = sprintEvents(rec)
 	if rec.Sprint != nil {
@@ -232,6 +278,12 @@ type sprintCheck struct {
 	segUsed    []bool
 	draws      []string
 	nonTrivial bool
+
+	track       *envTrack
+	plog        *patternLog
+	allowed     []string         // allowed languages of the environment in force
+	prevEnv     envs.Environment // set when this call's resume changed the environment: the one in force before
+	prevAllowed []string
 }
 
 func (sc *sprintCheck) viol(sig, what string, extra map[string]any) {
@@ -289,7 +341,7 @@ func (sc *sprintCheck) checkRun(run flows.Run) {
 	if s.Contact() != nil {
 		contactLang = string(s.Contact().Language())
 	}
-	chain := refChain(contactLang, h.trigger.Environment.AllowedLanguages, flow.Language)
+	chain := refChain(contactLang, sc.allowed, flow.Language)
 	maxResult := sc.maxResult
 	events := sc.events
 
@@ -448,9 +500,32 @@ func (sc *sprintCheck) checkRun(run flows.Run) {
 		case rt.Type == "random":
 			kind = "random"
 		case rt.Type == "switch":
-			d = refSwitch(h.ev, env, ctx, flow, chain, rt, func(test, outcome string) {
-				res.Count("test."+test+"."+outcome, 1)
+			d = refSwitch07(h.ev, env, ctx, flow, chain, rt, sc.plog, refObs{
+				test: func(test, outcome string) { res.Count("test."+test+"."+outcome, 1) },
+				pattern: func(twin, disagrees bool) {
+					res.Count("pattern.judged_by_own_regexp", 1)
+					if twin {
+						res.Count("seen.pattern_case_twin", 1)
+					}
+					if disagrees {
+						res.Count("seen.pattern_twin_distinguishes", 1)
+					}
+				},
 			})
+			if d.Skip == "" && sc.prevEnv != nil {
+				// evidence: would the environment that was in force before this resume have prescribed something else?
+				res.Count("seen.router_after_env_change", 1)
+				func() {
+					defer func() { recover() }()
+					pctx := types.NewXObject(run.RootContext(sc.prevEnv))
+					pd := refSwitch07(h.ev, sc.prevEnv, pctx, flow, refChain(contactLang, sc.prevAllowed, flow.Language), rt, nil, refObs{})
+					if !sameDecision(d, pd) {
+						res.Count("seen.decision_depends_on_env_change", 1)
+					}
+				}()
+			} else if d.Skip == "" && sc.track.changes > 0 {
+				res.Count("seen.router_in_later_sprint_after_env_change", 1)
+			}
 			if d.Skip != "" {
 				res.Count("skip.reference_undecided", 1)
 				res.Seen("reference_skips", d.Skip)
